@@ -143,6 +143,49 @@ def _check_held():
     return None
 
 
+def _default_stack(function, args, kwargs):
+    """Call with the interpreter's DEFAULT amount of stack: Hypothesis raises the recursion limit while a test runs,
+    which would hide unbounded recursion that a plain script (limit 1,000, called from a shallow stack) hits."""
+    depth, frame = 0, sys._getframe()
+    while frame is not None:
+        depth, frame = depth + 1, frame.f_back
+    old = sys.getrecursionlimit()
+    sys.setrecursionlimit(depth + 950)
+    try:
+        return function(*args, **kwargs)
+    finally:
+        sys.setrecursionlimit(old)
+
+
+CASE_IN_THREAD = False  # set per case by the runner (a pure function of the case, so replays behave alike)
+
+
+def _in_fresh_thread(function, args, kwargs, tiny_print=False):
+    """Run the call in a newly started thread (fresh thread-local state and a fresh contextvars context - e.g. the
+    default decimal context, default numpy print options) and hand its result or exception to the caller: the
+    library is documented as a set of plain functions, so which thread calls them must not matter."""
+    if os.environ.get("VERIF_NO_THREAD"):
+        return _default_stack(function, args, kwargs)
+    import threading
+    box = {}
+
+    def run():
+        try:
+            if tiny_print:
+                import numpy
+                numpy.set_printoptions(threshold=8, edgeitems=1, linewidth=60, precision=3)
+            box["value"] = _default_stack(function, args, kwargs)
+        except BaseException as exc:  # noqa - re-raised in the calling thread below
+            box["error"] = exc
+
+    worker = threading.Thread(target=run, daemon=True)
+    worker.start()
+    worker.join()
+    if "error" in box:
+        raise box["error"]
+    return box["value"]
+
+
 def lib_call(function, *args, **kwargs):
     """Call library code with stdout captured; library exceptions become a Raised value (BaseExceptions of the
     harness pass through).  Unless _twice=False, a returning call is repeated on the same argument objects after the
@@ -151,12 +194,18 @@ def lib_call(function, *args, **kwargs):
     import copy
     twice = kwargs.pop("_twice", True)
     hold = kwargs.pop("_hold", True)
+    threaded = kwargs.pop("_thread", True)  # False: tight loops of thousands of tiny calls per case
     sink = io.StringIO()
     old = sys.stdout
     sys.stdout = sink
     try:
         try:
-            first = function(*args, **kwargs)
+            if CASE_IN_THREAD and threaded and sys.gettrace() is None:
+                # for every other case (by digest) all library calls run in freshly started threads: results must
+                # not depend on thread-local or context-local state set up elsewhere (e.g. at import time)
+                first = _in_fresh_thread(function, args, kwargs, tiny_print=True)
+            else:
+                first = _default_stack(function, args, kwargs)
         except Exception as exc:  # noqa - the library's contract is judged by the caller
             return Raised(exc)
         import numpy
@@ -172,7 +221,7 @@ def lib_call(function, *args, **kwargs):
         try:
             with warnings.catch_warnings():
                 warnings.simplefilter("error")  # the repeated call runs as under `python -W error`
-                second = function(*args, **kwargs)
+                second = _in_fresh_thread(function, args, kwargs)
         except Exception as exc:  # noqa
             return Raised(ResultNotReproducible("second identical call (warnings escalated to errors) raised %s: %s"
                                                 % (type(exc).__name__, exc)))
